@@ -179,6 +179,19 @@ def run_scenario(name: str, seed: int, steps: int, blue: str = "random", tweak_i
                 if conc1 and not conc0 and (s.repeat_kill_chain or b0 not in ("SUCCEEDED", "FAILED")):
                     viol.append({"agent": n, "what": "concluded-against-settings", "detail": [t, b0, s.repeat_kill_chain]})
                     break
+            # "only from its configured start nodes": the selected start node is a configured one, every action runs on it
+            # (the c2-server-* actions of TAP001's PAYLOAD on the configured C2 server)
+            if not ((s.starting_nodes and a.starting_node in s.starting_nodes) or
+                    (not s.starting_nodes and a.starting_node == s.default_starting_node)):
+                viol.append({"agent": n, "what": "start-node-not-configured", "detail": [a.starting_node, list(s.starting_nodes or []), s.default_starting_node]})
+            c2_name = getattr(getattr(s.kill_chain, "COMMAND_AND_CONTROL", None), "c2_server_name", None)
+            for x in non_idle:
+                node = x[2].get("node_name", x[2].get("source_node"))
+                want = c2_name if x[1].startswith("c2-server-") else a.starting_node
+                if node != want:
+                    viol.append({"agent": n, "what": "action-from-unconfigured-node", "detail": [x[0], x[1], node, want]})
+                    break
+            stats["agents"][n]["nodes"] = sorted({str(x[2].get("node_name", x[2].get("source_node"))) for x in non_idle})
             first = next((x[0] for x in non_idle), None)
             if first is not None and first < s.start_step - s.variance:
                 viol.append({"agent": n, "what": "acted-before-start", "detail": [first, s.start_step, s.variance]})
